@@ -213,6 +213,7 @@ type listener struct {
 	closed   bool
 	tempErrs int // the next Accept calls fail with a temporary error
 	Closes   int
+	accepted []*tr.End // transports handed out by Accept
 }
 
 type tempErr struct{}
@@ -233,6 +234,7 @@ func (l *listener) Accept() (c net.Conn, err error) {
 			return
 		}
 		c, l.queue = l.queue[0], l.queue[1:]
+		l.accepted = append(l.accepted, c.(netConn).End)
 	})
 	return c, err
 }
@@ -284,6 +286,12 @@ func serveScenario(nconn int, kind string, stopBy string) *mc.Scenario {
 			_ = srv.Serve(ctx, lis)
 			st.serveReturned = true
 			st.handlersAtReturn = st.enteredHandlers - st.returnedHandlers
+			// "Serve returns only after every connection it accepted has been fully torn down"
+			for _, e := range lis.accepted {
+				if !e.IsClosed() {
+					st.fails = append(st.fails, fmt.Sprintf("Serve returned while the accepted transport %s was still open (its connection has not been torn down)", e.Name))
+				}
+			}
 		})
 		clientsDone := 0
 		for i := 0; i < nconn; i++ {
